@@ -37,4 +37,57 @@ def Anchors (leaf : Cert) (p : Purpose) (a : Anchor) : Prop :=
 
 def SingleEqual (this that : List Nat) : Prop := ∃ v, this = [v] ∧ that = [v]
 
+/-! Executable form of the same declarative statement, evaluated by the driver on the verdict the
+REAL library returned for a generated chain (`spec.c12`); `Props/C12.lean` proves it equivalent to
+the propositions above. -/
+
+def extGoodB (role : Role) (c : Cert) (e : Ext) : Bool :=
+  match e.id with
+  | .ski => e.payload == .ski c.keyHash
+  | .ku => e.payload == .ku (roleKu role)
+  | .eku => match e.payload with | .eku oids => !oids.isEmpty && oids.all (· == roleOid role) | _ => false
+  | .bc => e.payload == .bc true (some 0)
+  | .crldp => match e.payload with
+    | .crldp pts => !pts.isEmpty && pts.all fun p => p.uriFullName && !p.reasons && !p.crlIssuer
+    | _ => false
+  | .ian => e.payload == .ian true
+  | _ => true
+
+def isDisallowed : ExtId → Bool | .disallowed _ => true | _ => false
+
+def profileOkB (role : Role) (c : Cert) : Bool :=
+  c.exts.all (fun e => !isDisallowed e.id) &&
+  c.exts.all (fun e => (requiredIds role).contains e.id || !e.critical) &&
+  (requiredIds role).all (fun id => c.exts.any (fun e => e.id == id)) &&
+  c.exts.all (fun e => !(requiredIds role).contains e.id || extGoodB role c e)
+
+def withinValidityB (c : Cert) : Bool := decide (0 ≤ c.notAfter) && decide (c.notBefore ≤ 0)
+
+def anchorsB (leaf : Cert) (p : Purpose) (a : Anchor) : Bool :=
+  a.purpose == p && a.cert.subject == leaf.issuer && keyIdentifierCheck a.cert leaf &&
+  issuerSigned leaf a.cert && withinValidityB a.cert
+
+def singleEqualB (this that : List Nat) : Bool :=
+  match this, that with
+  | [v], [w] => v == w
+  | _, _ => false
+
+/-- the whole verdict: "no error" is expected exactly here -/
+def conformsB (rs : Ruleset) (leaf : Cert) (anchors : List Anchor) : Bool :=
+  match rs with
+  | .mdlReaderOneStep =>
+    withinValidityB leaf && profileOkB .reader leaf && anchors.any (anchorsB leaf .readerCa)
+  | .mdl =>
+    withinValidityB leaf && profileOkB .ds leaf &&
+    match anchors.find? (anchorsB leaf .iaca) with
+    | none => false
+    | some a => singleEqualB leaf.countries a.cert.countries && profileOkB .iaca a.cert &&
+        ((leaf.states.isEmpty && a.cert.states.isEmpty) || singleEqualB leaf.states a.cert.states)
+  | .aamvaMdl =>
+    withinValidityB leaf && profileOkB .ds leaf &&
+    match anchors.find? (anchorsB leaf .iaca) with
+    | none => false
+    | some a => singleEqualB leaf.countries a.cert.countries && profileOkB .iaca a.cert &&
+        singleEqualB leaf.states a.cert.states
+
 end IsoMdl.X509
